@@ -319,7 +319,9 @@ PATCH_KW = [('edgecolor', 'magenta'), ('facecolor', 'yellow'),
             ('linewidth', 3.5), ('fill', True), ('linestyle', '--'),
             ('alpha', 0.25), ('label', 'my label'), ('zorder', 7),
             # matplotlib's shorthand spellings (reg.plot(ax=ax, lw=2, ...))
-            ('lw', 4.5), ('ec', 'orange'), ('fc', 'cyan'), ('ls', ':')]
+            ('lw', 4.5), ('ec', 'orange'), ('fc', 'cyan'), ('ls', ':'),
+            # matplotlib's 'color' sets edge AND face colour of a patch
+            ('color', 'purple')]
 ALIASES = {'lw': 'linewidth', 'ec': 'edgecolor', 'fc': 'facecolor',
            'ls': 'linestyle', 'ms': 'markersize', 'mec': 'markeredgecolor',
            'mew': 'markeredgewidth'}
@@ -376,7 +378,7 @@ class Kwargs(Relation):
                            G.text('near', meta=False))
         return st.fixed_dictionaries({
             'visual': st.integers(0, 7),
-            'kw': st.lists(st.integers(0, 11), min_size=0, max_size=3,
+            'kw': st.lists(st.integers(0, 12), min_size=0, max_size=3,
                            unique=True),
             'region': region,
         })
@@ -399,6 +401,11 @@ class Kwargs(Relation):
         # (never a shorthand together with the name it stands for)
         kw = {k: v for k, v in kw.items()
               if not (k in ALIASES and ALIASES[k] in kw)}
+        if kind == 'Patch' and 'color' in kw:
+            # 'color' together with an explicit edge / face colour keyword is
+            # matplotlib's own business: keep 'color' alone
+            kw = {k: v for k, v in kw.items()
+                  if k not in ('edgecolor', 'facecolor', 'ec', 'fc')}
         art = reg.as_artist(**kw)
         ctx.label(cls, 'style:' + str(rs['visual'].get('default_style', 'mpl')))
 
@@ -426,6 +433,19 @@ class Kwargs(Relation):
         }
         for k0, v in kw.items():
             k = ALIASES.get(k0, k0)
+            if kind == 'Patch' and k == 'color':
+                want = rgba(v)
+                if 'alpha' in kw:
+                    want = want[:3] + (round(kw['alpha'], 6),)
+                ctx.check(rgba(art.get_edgecolor()) == want
+                          and (not art.get_fill()
+                               or rgba(art.get_facecolor()) == want),
+                          "Patch | caller keyword 'color' does not override "
+                          'the stored edge / face colours',
+                          f'edge {rgba(art.get_edgecolor())} face '
+                          f'{rgba(art.get_facecolor())} fill {art.get_fill()} '
+                          f'vs {want}; visual {rs["visual"]}')
+                continue
             got = getters[k](art)
             want = v
             if k == 'linestyle' and v == ':':
